@@ -21,8 +21,10 @@ EncOK ==     \* C11: RFC layout, and decoding it returns the identical packet
 Verdict ==
   CASE E.e = "dec" -> IF ~DecOK THEN "C10:Decode" ELSE IF ~ReencOK THEN "C10,C11:Reencode" ELSE "ok"
     [] E.e = "enc" -> IF EncOK THEN "ok" ELSE "C11:Encode"
-    [] E.e = "op"  -> IF E.ok = OpcodeOK(E.n) /\ (E.ok => E.bytes = BE16(E.n)) THEN "ok" ELSE "C11:Opcode"
-    [] E.e = "ec"  -> IF E.ok = ErrCodeOK(E.n) /\ (E.ok => E.bytes = BE16(E.n)) THEN "ok" ELSE "C11:ErrorCode"
+    [] E.e = "op"  -> IF E.panic THEN "C10,C11:OpcodePanic"
+                      ELSE IF E.ok = OpcodeOK(E.n) /\ (E.ok => E.bytes = BE16(E.n)) THEN "ok" ELSE "C11:Opcode"
+    [] E.e = "ec"  -> IF E.panic THEN "C10,C11:ErrorCodePanic"
+                      ELSE IF E.ok = ErrCodeOK(E.n) /\ (E.ok => E.bytes = BE16(E.n)) THEN "ok" ELSE "C11:ErrorCode"
     [] OTHER -> "ok"
 
 TraceNext ==
